@@ -482,14 +482,72 @@ func (n *neighbour) NeedsTable(ctx context.Context, uri string) (bool, error) {
 	return a, err
 }
 
+// scriptHas: is the database a member of an assembly whose neighbours answer with kind k (script k, slow-k, k+late, or a seq with k)
+func scriptHas(script, k string) bool {
+	sc := strings.TrimPrefix(script, "slow-")
+	if sc == k {
+		return true
+	}
+	if strings.HasPrefix(sc, "seq:") {
+		for _, a := range strings.Split(strings.TrimPrefix(sc, "seq:"), ",") {
+			if a == k {
+				return true
+			}
+		}
+	}
+	return false
+}
+
+// seqNeighbour is one of several neighbours whose answers arrive in a generated order: it answers only after its predecessor has
+// answered (after a claim: after the claim's cancellation; otherwise a moment later, so that the predecessor's result is delivered first).
+type seqNeighbour struct {
+	proto.UnimplementedOperator
+	base *neighbour
+	kind string
+	prev chan bool
+	next chan bool
+}
+
+func (q *seqNeighbour) NeedsTable(ctx context.Context, uri string) (bool, error) {
+	claimed := false
+	if q.prev != nil {
+		if claimed = <-q.prev; claimed {
+			<-ctx.Done()
+		} else {
+			time.Sleep(2 * time.Millisecond)
+		}
+	}
+	var a bool
+	var err error
+	switch q.kind {
+	case "clean":
+	case "claim":
+		a = true
+	case "err":
+		err = errors.New("neighbour unreachable")
+	case "never":
+		<-ctx.Done()
+		err = ctx.Err()
+	default: // live | op
+		a, err = q.base.answerAs(q.kind, ctx, uri)
+	}
+	if q.next != nil {
+		q.next <- claimed || a
+	}
+	return a, err
+}
+
 func (n *neighbour) answer(ctx context.Context, uri string) (bool, error) {
+	return n.answerAs(n.script, ctx, uri)
+}
+
+func (n *neighbour) answerAs(sc string, ctx context.Context, uri string) (bool, error) {
 	if n.owner.fs.dead.Load() {
 		return true, nil
 	}
 	n.mu.Lock()
 	n.asked = append(n.asked, uriPath(uri))
 	n.mu.Unlock()
-	sc := n.script
 	if strings.HasPrefix(sc, "slow-") {
 		c := &nbCall{uri: uri, done: make(chan struct{})}
 		n.w.nbWait <- c
@@ -506,7 +564,7 @@ func (n *neighbour) answer(ctx context.Context, uri string) (bool, error) {
 		// panics produces no answer, the caller sees an error
 		var firstErr error
 		for _, o := range n.w.slots {
-			if o == n.owner || o.nb == nil || strings.TrimPrefix(o.nb.script, "slow-") != "op" || o.op == nil {
+			if o == n.owner || o.nb == nil || !scriptHas(o.nb.script, "op") || o.op == nil {
 				continue
 			}
 			needed, err := rpcNeedsTable(o.op, uri)
@@ -528,7 +586,7 @@ func (n *neighbour) answer(ctx context.Context, uri string) (bool, error) {
 			if o.state == "live" && o.db != nil && o.db.NeedsTable(uri) {
 				return true, nil
 			}
-			if o.state == "crashed" && o.nb != nil && strings.TrimPrefix(o.nb.script, "slow-") == "live" {
+			if o.state == "crashed" && o.nb != nil && scriptHas(o.nb.script, "live") {
 				gone = errors.New("neighbour unreachable") // a crashed member of the assembly cannot answer
 			}
 		}
@@ -1255,7 +1313,7 @@ func (r *runner) restore(o opJ) error {
 	ownC := "OwnAll"
 	nbC := "NbNone"
 	s.ids[o.ID] = true
-	if sc := strings.TrimPrefix(o.Nb, "slow-"); src.state == "live" && (sc == "op" || sc == "live") {
+	if src.state == "live" && (scriptHas(strings.TrimSuffix(o.Nb, "+late"), "op") || scriptHas(strings.TrimSuffix(o.Nb, "+late"), "live")) {
 		o.Nb = "err" // a probe of the handle is not a member of the assembly
 	}
 	if o.Hi > 0 {
@@ -1264,7 +1322,24 @@ func (r *runner) restore(o opJ) error {
 		o.Nb = strings.TrimSuffix(o.Nb, "+late")
 		s.nb = &neighbour{w: w, owner: s, script: o.Nb}
 		var nbs []operator.VerifNeighbor
-		if o.Nb != "" && late {
+		if strings.HasPrefix(o.Nb, "seq:") {
+			// several neighbours whose answers arrive in the listed order
+			kinds := strings.Split(strings.TrimPrefix(o.Nb, "seq:"), ",")
+			var prev chan bool
+			var ans []string
+			for i, kd := range kinds {
+				q := &seqNeighbour{base: s.nb, kind: kd, prev: prev}
+				if i < len(kinds)-1 {
+					q.next = make(chan bool, 1)
+				}
+				prev = q.next
+				nbs = append(nbs, operator.VerifNeighbor{KeyGroupRange: partitioning.KeyGroupRange{Start: 0, End: 65536}, Operator: q})
+				ans = append(ans, map[string]string{"clean": "AClean", "claim": "AClaim", "err": "AErr", "never": "ANever", "live": "ALive", "op": "AOp"}[kd])
+			}
+			nbC = "(NbSeq " + hx.CoqList(ans, "nbans") + ")"
+			r.tag(fmt.Sprintf("neighbours-%d-ordered-answers", len(kinds)))
+			r.tag("nb-order-" + strings.TrimPrefix(o.Nb, "seq:"))
+		} else if o.Nb != "" && late {
 			// two neighbours: the scripted one and a slower one whose clean "not needed" arrives after the first answer
 			s.nb.twin = make(chan bool, 1)
 			nbs = append(nbs, operator.VerifNeighbor{KeyGroupRange: partitioning.KeyGroupRange{Start: 0, End: 65536}, Operator: s.nb})
@@ -1345,7 +1420,7 @@ func (r *runner) restore(o opJ) error {
 		return nil
 	}
 	w.slots = append(w.slots, s)
-	if s.nb != nil && strings.TrimPrefix(s.nb.script, "slow-") == "op" {
+	if s.nb != nil && scriptHas(s.nb.script, "op") {
 		s.op = operator.NewOperator(operator.NewOperatorParams{ID: fmt.Sprintf("op-%d", s.idx), Host: "h"})
 		operator.VerifSetDB(s.op, s.db)
 	}
